@@ -68,7 +68,12 @@ def run(ctx, res):
         # (b) random target subsets
         for _ in range(12 if ctx.tier == "quick" else 60):
             S = rnd.sample(nodes, rnd.randint(1, 6))
-            out, _ = engine.simulate(df, o, targets=S)
+            try:
+                out, _ = engine.simulate(df, o, targets=S)
+            except Exception as ex:  # noqa: BLE001
+                res.add_violation(f"subset-raises:{type(ex).__name__}", f"targets {S} on {impl.iso(o)} raise {type(ex).__name__}: {str(ex)[:160]} although the run with all "
+                                  f"nodes as targets succeeds", dict(kind="subset-raises", date=impl.iso(o), targets=S, error=str(ex)[:400]), True)
+                continue
             stats["subset_runs"] += 1
             if sorted(out.columns) != sorted(S) or len(out) != len(df):
                 res.add_violation("shape:subset", f"targets {S} on {impl.iso(o)} returned columns {list(out.columns)}, {len(out)} rows",
@@ -81,6 +86,19 @@ def run(ctx, res):
                     res.add_violation(f"value:{t}", f"{t} on {impl.iso(o)} differs between targets={S} and targets=<all {len(nodes)} nodes>: {w}",
                                       dict(kind="value", date=impl.iso(o), target=t, targets_a=S, targets_b="all nodes of the default graph",
                                            witness=w, population_seed=f"{ctx.pid}:c04", rows=df.to_dict("records")[:40]), True)
+        # (b2) targets that depend on parameters only (no data column among their ancestors): one row per input row, constant
+        ponly = [n for n in nodes if not d["nodes"][n]["args"] and d["nodes"][n]["kind"]["k"] == "rule"]
+        for S in ([ponly[:1], ponly[:3]] if ponly else []):
+            try:
+                out, _ = engine.simulate(df, o, targets=S)
+                stats["subset_runs"] += 1
+                stats["parameter_only_target_sets"] = stats.get("parameter_only_target_sets", 0) + 1
+                if sorted(out.columns) != sorted(S) or len(out) != len(df) or any(not metam.col_equal(out[t].to_numpy(), base[t].to_numpy()) for t in S):
+                    res.add_violation("shape:parameter-only-targets", f"targets {S} (parameters only) on {impl.iso(o)}: {len(out)} rows for {len(df)} input rows / values differ",
+                                      dict(kind="shape", date=impl.iso(o), targets=S), True)
+            except Exception as ex:  # noqa: BLE001
+                res.add_violation(f"subset-raises:{type(ex).__name__}", f"targets {S} (parameters only) on {impl.iso(o)} raise {type(ex).__name__}: {str(ex)[:160]}",
+                                  dict(kind="subset-raises", date=impl.iso(o), targets=S, error=str(ex)[:400]), True)
         # (c) extra, unused columns — including names that look like time-unit / group / pointer columns
         tg = [t for t in d["targets"] if t in nodes]
         ref = base[tg]
@@ -105,7 +123,11 @@ def run(ctx, res):
             m = re.match(r"^(.*)_(y|m|w|d)((_(hh|bg|fg|eg|ehe|sn|wthh))?)$", n)
             u = rnd.choice([x for x in "ymwd" if x != m.group(2)])
             name = f"{m.group(1)}_{u}{m.group(3)}"
-            if name not in nodes and name not in df.columns and d["nodes"].get(name, {}).get("kind", {}).get("k") in (None, "timeconv"):
+            # only when NO other unit variant of the rule is needed by the targets: a supplied x_w would legitimately become the source
+            # of a needed derived x_m (the loader derives missing units from whatever unit is supplied) and then it is not unused
+            others_needed = any(f"{m.group(1)}_{x}{m.group(3)}" in nodes for x in "ymwd" if x != m.group(2))
+            if (not others_needed and name not in nodes and name not in df.columns
+                    and d["nodes"].get(name, {}).get("kind", {}).get("k") in (None, "timeconv")):
                 sib[name] = n
         if sib:
             extra = df.copy()
@@ -119,7 +141,7 @@ def run(ctx, res):
                 if not metam.col_equal(out[t].to_numpy(), ref[t].to_numpy()):
                     res.add_violation(f"extra-columns:{t}", f"{t} on {impl.iso(o)} changes when the unused columns {sorted(sib)[:6]} (other time units of internally "
                                       f"computed rules) are added: {metam.first_diff(out[t].to_numpy(), ref[t].to_numpy(), keys)}",
-                                      dict(kind="extra", date=impl.iso(o), target=t, columns=sorted(sib)), True)
+                                      dict(kind="extra", date=impl.iso(o), target=t, columns=sorted(sib), rows=df.to_dict("records")), True)
         # (d) debug, (e) minimal-specification option
         for kw in (dict(debug=True), dict(minimal="warn")):
             out, _ = engine.simulate(df, o, targets=tg, **kw)
